@@ -275,8 +275,8 @@ def auto_replay(fn):
     def replay(inputs, params, obligation):
         c = ConcreteCtx(inputs)
         fn(c, real_package(), **params)
-        return {'reproduced': obligation in c.failed and not c.assumption_broken, 'failed': c.failed,
-                'assumption_broken': c.assumption_broken}
+        hit = bool(c.failed) if obligation == '*' else obligation in c.failed
+        return {'reproduced': hit and not c.assumption_broken, 'failed': c.failed, 'assumption_broken': c.assumption_broken}
     return replay
 
 
@@ -523,7 +523,7 @@ class Job:
 
 class HarnessSpec:
     def __init__(self, name, fn, params=None, replay=None, concrete=None, signature=None, merge=True,
-                 witness_every=1, fresh_pkg=False, doc='', fallback=None, fallback_tries=6):
+                 witness_every=1, fresh_pkg=False, doc='', fallback=None, fallback_tries=6, witness_replay=False):
         self.name = name
         self.fn = fn                      # fn(ctx, pkg, **params) -> outcome
         self.params = params or [{}]      # list of dicts | callable(tier) -> list of dicts
@@ -536,6 +536,10 @@ class HarnessSpec:
         self.doc = doc
         self.fallback = fallback          # fallback(params, rng) -> candidate inputs tried when the solver answers unknown
         self.fallback_tries = fallback_tries
+        # witness_replay: on sampled paths that produced no counterexample, a model of the path condition is handed to the replay
+        # function ('*' as obligation): the real package must NOT show a violation for it (a trace validated against the
+        # implementation for harnesses whose observables are abstract)
+        self.witness_replay = witness_replay
 
     def param_list(self, tier):
         return self.params(tier) if callable(self.params) else self.params
@@ -604,6 +608,31 @@ def run_job(args):
                     if bad and len(job.witness_fail) < 5:
                         job.witness_fail.append({'inputs': jsonable(inputs), 'diff(sym,real)': bad,
                                                  'params': jsonable(params)})
+
+            elif spec.witness_replay and spec.replay is not None and not job.violations and \
+                    (job.path_index % spec.witness_every == 0 or job.path_index <= 3):
+                try:
+                    e._trim()
+                    e.solver.set('timeout', 4000)
+                    r = e.solver.check()           # (no retry: a witness that is expensive to find is skipped)
+                finally:
+                    e.solver.set('timeout', e.check_timeout_ms)
+                if r == z3.sat:
+                    model = e.solver.model()
+                    inputs = {k: model_value(model, v) for k, v in e.inputs.items()}
+                    try:
+                        rep = spec.replay(unjson(jsonable(inputs)), params, '*')
+                    except BaseException as ex:      # noqa
+                        rep = {'reproduced': False, 'note': f'{type(ex).__name__}: {ex}'}
+                    if str(rep.get('note', '')).startswith('degenerate input'):
+                        job.witness_skipped = getattr(job, 'witness_skipped', 0) + 1
+                    else:
+                        job.witnesses += 1
+                        if rep.get('reproduced') and len(job.witness_fail) < 5:
+                            job.witness_fail.append({'inputs': jsonable(inputs), 'real_package_disagrees': jsonable(rep),
+                                                     'params': jsonable(params)})
+                else:
+                    job.witness_skipped = getattr(job, 'witness_skipped', 0) + 1
 
         # checks issued inside fn run while the path condition is on the solver
         e.explore(fn, on_path)
